@@ -412,6 +412,23 @@ impl<F: MatchFunc> Aligner<F> {
         }
 
         let (m, n) = (x.len(), y.len());
+        if m == 0 || n == 0 {
+            // The banded recurrences assume that both sequences are non-empty (otherwise the
+            // origin cell is overwritten by a zero-length clip and the traceback never ends).
+            // There is nothing to band here, so defer to the unbanded aligner.
+            let s = &self.scoring;
+            let scoring = Scoring {
+                gap_open: s.gap_open,
+                gap_extend: s.gap_extend,
+                match_fn: |a: u8, b: u8| s.match_fn.score(a, b),
+                match_scores: s.match_scores,
+                xclip_prefix: s.xclip_prefix,
+                xclip_suffix: s.xclip_suffix,
+                yclip_prefix: s.yclip_prefix,
+                yclip_suffix: s.yclip_suffix,
+            };
+            return super::Aligner::with_capacity_and_scoring(m, n, scoring).custom(x, y);
+        }
         self.traceback.init(m, n);
 
         for k in 0..2 {
